@@ -250,10 +250,9 @@ def broadly_guarded(func_node, target) -> bool:
     return any(any(c in BROAD for c in caught) for caught in enclosing_handlers(func_node, target))
 
 
-_CG = {}
-
-
 def get(repo) -> CallGraph:
-    if id(repo) not in _CG:
-        _CG[id(repo)] = CallGraph(repo)
-    return _CG[id(repo)]
+    cg = getattr(repo, "_sa_callgraph", None)
+    if cg is None:
+        cg = CallGraph(repo)
+        repo._sa_callgraph = cg
+    return cg
